@@ -43,7 +43,7 @@ CLAIMED = {
                 "size, no residue of the dropped prime enters the arithmetic modulo another prime unreduced (it is reduced "
                 "under that prime, copied under a comparison of the two moduli, or operated on under its own prime), and "
                 "every in-place operation of src/util/rns.rs on residue slot s uses the precomputed operand, modulus and "
-                "NTT table of prime s (slot and index expressions compared as symbolic polynomials). R-SHAPE(baselen): the number of primes handed to the BEHZ base B equals the counter of the sizing rule (symbolic length of the prime list). R-RESDOM(half): every centring threshold / rounding offset defined as a shifted modulus value in the RNS tool is exactly half of it. R-RESDOM(negskip) as under C01.",
+                "NTT table of prime s (slot and index expressions compared as symbolic polynomials). R-SHAPE(baselen): the number of primes handed to the BEHZ base B equals the counter of the sizing rule (symbolic length of the prime list). R-RESDOM(half): every centring threshold / rounding offset defined as a shifted modulus value in the RNS tool is exactly half of it. R-RESDOM(negskip) as under C01. R-RESDOM(parity): where a modulus is a constant (m_tilde = Modulus::new(1 << 32), evaluated from its constructor) every comparison against its half has the inclusiveness its parity requires (`>=` for an even modulus: the residue M/2 is negative in the centred range [-M/2, M/2)). R-RESDOM / R-RESDOM(operand) read slices named through split_at_mut halves and sub-slice lets as ranges of the underlying buffer (de-aliasing view).",
         "note": _TB + "Not decided: every integer specification itself (CRT bijectivity, conversion error bounds, "
                 "Montgomery / floor / Shenoy-Kumaresan exactness, round-to-nearest, value modulo t, scale-and-round) — "
                 "value-level facts outside static shape analysis; the BEHZ converters iterate with zip adaptors and "
@@ -69,7 +69,7 @@ CLAIMED = {
                 "canonical and documented lazy inputs, no addition can wrap 2^64 and no subtraction can underflow, the "
                 "non-lazy forms end in [0,q) and the lazy forms inside their documented ranges; the NTT wrappers reach "
                 "the transform of their direction and laziness; the random start of the primitive-root search is confined "
-                "to a minimum over a start-independent set (who-may-call + scan shape), so the root is deterministic. Also: the ntt/intt _p/_ps wrappers hand every component to the transform exactly once (the running offset advances by exactly the slice width). The candidate root and every other operand of the modular primitives of the root search is a residue (R-RESIDUE with identity-return sinks: exponentiate_u64_mod hands its operand back for exponent 1).",
+                "to a minimum over a start-independent set (who-may-call + scan shape), so the root is deterministic. Also: the ntt/intt _p/_ps wrappers hand every component to the transform exactly once (the running offset advances by exactly the slice width). The candidate root and every other operand of the modular primitives of the root search is a residue (R-RESIDUE with identity-return sinks: exponentiate_u64_mod hands its operand back for exponent 1). R-ADMIT(degree): no refusing branch of NTTTables::new is certain from the degree alone for a supported degree (three-valued evaluation of every refusing condition for each power with HE_POLY_MOD_DEGREE_MIN <= 2^p <= HE_POLY_MOD_DEGREE_MAX).",
         "note": _TB + "External fact used: multiply_u64operand_mod_lazy returns a value below 2q (its documented contract, "
                 "covered structurally by C08). Not decided: that the transform is the evaluation map in bit-reversed "
                 "order, invertibility, the convolution property.",
@@ -81,7 +81,7 @@ CLAIMED = {
                 "the same index-map field with the loop variable as index; the tail beyond the input is zero-filled "
                 "through the same map; encode ends with the inverse and decode begins with the forward non-lazy "
                 "negacyclic transform of the same tables; coefficient encoding reduces modulo t; and every index "
-                "guarded by a comparison with the operand length (Galois permutation) is implied in-bounds. Also: GaloisTool::apply stores to its out-buffer for every index of the ring degree. The rotation-step decomposition (naf) covers negative steps: no `v > 0` halving loop over a signed parameter that was never made non-negative (R-CONTRA(signloop)). R-PAIR(generator): the multipliers of the step-to-element walk are GALOIS_GENERATOR or a constant that is its inverse modulo 2 * HE_POLY_MOD_DEGREE_MAX (evaluated from the constant definitions).",
+                "guarded by a comparison with the operand length (Galois permutation) is implied in-bounds. Also: GaloisTool::apply stores to its out-buffer for every index of the ring degree. The rotation-step decomposition (naf) covers negative steps: no `v > 0` halving loop over a signed parameter that was never made non-negative (R-CONTRA(signloop)). R-PAIR(generator): the multipliers of the step-to-element walk are GALOIS_GENERATOR or a constant that is its inverse modulo 2 * HE_POLY_MOD_DEGREE_MAX (evaluated from the constant definitions). R-RESIDUE(encode): every coefficient BatchEncoder::encode_polynomial stores is the result of a reducing routine, or the caller's word under the guard `word < modulus.value()` (a bit-count guard admits t <= v < 2^bits(t)).",
         "note": _TB + "Not decided: that batching is a ring isomorphism, the slot order, the rotation correspondence "
                 "(facts about roots of unity and the index map's contents).",
         "technique": "structural pair agreement on typed HIR (scatter/gather, transform pairs) + guard/use contradiction + iteration-space coverage of the out-buffer",
@@ -195,7 +195,7 @@ CLAIMED = {
                 "object to a callee that, on every normally-returning path, moves it to next_context_data (so the "
                 "finite chain is walked strictly downward or the call refuses). Refusals: no normally-returning path of "
                 "the to-target forms lacks the upward test, none of the to-next/rescale forms lacks the last-level "
-                "test, and on the BFV and BGV projections the rescale entry points never return normally. Also: in the kernels that drop the last prime no residue of the dropped prime enters another prime's arithmetic unreduced, and per-prime operands are taken at the slot's own index. A level walk written as a counted loop must measure its hop count from the walked object's own level (chain_index of the context data of its parms_id), not from the first/key/last level.",
+                "test, and on the BFV and BGV projections the rescale entry points never return normally. Also: in the kernels that drop the last prime no residue of the dropped prime enters another prime's arithmetic unreduced, and per-prime operands are taken at the slot's own index. A level walk written as a counted loop must measure its hop count from the walked object's own level (chain_index of the context data of its parms_id), not from the first/key/last level. R-GUARD(scale-level), down-chain routines: every is_scale_within_bounds test of a CKKS mod-switch / rescale routine uses the context data of the level recorded on the result, and tests the scale the result carries.",
         "note": _TB + "Not decided: preservation of the decrypted message, rounding bounds, BGV correction-factor "
                 "arithmetic. Interior mutability / external state in a loop condition yields `unresolved`, never an alarm.",
         "technique": "loop-variant analysis on typed HIR (read/write sets, Freeze types) + interprocedural must-pass-through + symbolic slot/prime discipline",
